@@ -108,8 +108,8 @@ def verus_name(meta_path):
     segs = asm.rsitems.split_path(p)
     out = []
     for s in segs:
-        if s.startswith('impl '):
-            k = s[5:]
+        if s.startswith('impl ') or s.startswith('impl<'):
+            k = re.sub(r'^impl\s*(<[^>]*>)?\s*', '', s)
             if ' for ' in k:
                 tr, ty = k.split(' for ')
                 out.append(ty)   # Verus prints trait impl fns as `Type::fn` too (checked at run time)
@@ -265,14 +265,14 @@ def check_vacuity(ur, meta_fns):
     can = [n for n in fb if n.endswith('vx_canary')]
     if not can or fb[can[0]]['success']:
         probs.append('canary `ensures false` was not rejected')
-    vac = {n: e for n, e in fb.items() if n.endswith('__vac') or '__vac::' in n}
+    vac = {n: e for n, e in fb.items() if re.search(r'__vac\d*$', n) or re.search(r'__vac\d*::', n)}
     if not vac:
         probs.append('no vacuity clones were checked')
     for n, e in vac.items():
-        if '__vac::' in n:
+        if re.search(r'__vac\d*::', n):
             continue
         if e['success']:
-            probs.append('vacuous contract: %s verifies with `ensures false`' % n[:-5])
+            probs.append('vacuous contract: %s verifies with `ensures false`' % re.sub(r'__vac\d*$', '', n))
     return probs
 
 
@@ -534,7 +534,7 @@ def main(argv):
     for u in spec['units']:
         fb = cls[u].get('breakdown') or {}
         for k, e in fb.items():
-            if e.get('mode') == 'proof' and not k.endswith('__vac'):
+            if e.get('mode') == 'proof' and not re.search(r'__vac\d*$', k):
                 lemma_count += 1
                 lemma_ok += 1 if e['success'] else 0
     samples = []
@@ -572,7 +572,7 @@ def main(argv):
                           'imported_as_stub': u not in spec['units']} for u in units},
             'rewrite_rules': rules,
             'vacuity': {'canary_rejected': not any('canary' in p for p in vac_problems), 'problems': vac_problems,
-                        'clones_checked': sum(len([n for n in fn_breakdown(runs[u].vac) if n.endswith('__vac')]) for u in spec['units'] if runs[u].vac)},
+                        'clones_checked': sum(len([n for n in fn_breakdown(runs[u].vac) if re.search(r'__vac\d*$', n)]) for u in spec['units'] if runs[u].vac)},
             'stability': stability,
             'bounded_checks': spec.get('bounded', []),
             'explanation': spec.get('explanation', ''),
